@@ -233,3 +233,35 @@ PROPS['C01'] = {
     'technique': 'static analysis: dominance of mutation sites by decision edges on MIR + protocol dataflow',
     'assumptions': COMMON_ASSUMPTIONS,
 }
+
+PROPS['C07'] = {
+    'modules': ['c07', 'fattype'],
+    'level': 'other',
+    'quick_configs': ['default'],
+    'thorough_configs': ALL,
+    'controls': [],
+    'floors': {'default': {'M1': 25, 'M2a': 8, 'M2b': 13, 'M2c': 2, 'M2d': 11}},
+    'rule_text': 'one obligation per panic site (MIR Assert or panicking library call) in a function reachable from '
+                 'FileSystem::new, evaluated in every calling context by interval analysis; one per geometry condition '
+                 'of the statement (range established at the Ok exit, rejecting comparison, width-consistency table, '
+                 'must-call); non-trivial = the site is reachable under the computed ranges',
+    'explanation': 'M1: every arithmetic-overflow / division / bounds assert and every panicking call reachable while '
+                   'mounting is discharged for ALL field values: a context-sensitive forward interval analysis over the MIR '
+                   '(type ranges, widening casts, masks, branch refinement) in which the validators themselves establish '
+                   'the field invariants used later (e.g. bytes_per_sector in [512,4096] holds after '
+                   'validate_bytes_per_sector\'s Ok edge because its rejecting branches refine the field). Relational facts '
+                   '(the 64-bit sum of the metadata regions is below total_sectors) are flags established only when the '
+                   'rejecting comparison is found in the validator, and required in every context of the sites that rely '
+                   'on them; the residue is two table entries (documented storage-position debug assertion; the Read '
+                   'contract n <= buf.len()). M2: ranges at the Ok exit of BootSector::validate, 13 rejecting comparisons, '
+                   'the FAT-width consistency table over is_fat32 x all cluster counts, and must-calls of every validator '
+                   'whatever `strict`. M3: out-of-range FS-info counters are discarded. Not decided: that the accepted '
+                   'geometry equals an independent parse (arithmetic).',
+    'claim': 'No panic/overflow on the mount path for any boot-sector and FS-info contents (all 2^(8*90) at once, by type '
+             'ranges and validator-established invariants), and a rejecting branch for every geometry condition the '
+             'statement lists. Equality with an independent parse is not decided.',
+    'level_note': 'D3 entries are flag-checked in every context; 2 D4 entries are beliefs listed in tables/discharge.json',
+    'technique': 'static analysis: context-sensitive interval abstract interpretation of MIR + rejecting-branch coverage',
+    'assumptions': COMMON_ASSUMPTIONS + ['the storage honours the Read contract (returns n <= buf.len())',
+                                         'the storage position is 0 at mount (documented precondition)'],
+}
